@@ -146,7 +146,7 @@ def run_fault_retry(scn):
                     raise
                 raised += 1
             except Exception as e:
-                if record.FP_GUARD in str(e) and record.partition_degenerate(solver):
+                if record.guard_fired(e, solver):
                     # the partition reached adjacent doubles (iteration steps ignore eps): floating-point domain limit, DESIGN.md section 3
                     m.check("after:fp-guard")
                     return {"violations": list(m.viol), "obs": {"fp_domain_exhausted": 1, "items_checked": m.items_checked}, "skip": "fp-domain-exhausted"}
@@ -157,7 +157,7 @@ def run_fault_retry(scn):
                 gave_up = True
                 m.check("after:continuation-raised+after-fault")
                 break
-            if record.FP_GUARD in out.getvalue() and record.partition_degenerate(solver):
+            if record.guard_fired(out.getvalue(), solver):
                 return {"violations": [], "obs": {"fp_domain_exhausted": 1}, "skip": "fp-domain-exhausted"}
             m.check("after:" + step[0] + ("+after-fault" if any(e["exc"] for e in prob.log) else ""))
     viol = list(m.viol)
